@@ -47,14 +47,17 @@ from vf.rec import Rec
 
 ID = 'C06'
 LEVEL = 'exploration'
-TECHNIQUE = ('bounded exhaustive enumeration of nest structures x parameter grids x availability patterns x utility grids; '
-             'paired evaluation of the model functions by the real engine (reductions, scale one, tuple syntax) and real '
+TECHNIQUE = ('bounded exhaustive enumeration of nest structures x parameter grids x availability patterns x utility grids x '
+             'every public entry point of the family (old names included) x parameters evaluated at / away from their initial '
+             'values; paired evaluation of the model functions by the real engine (reductions, scale one, tuple syntax) and real '
              'differentiation of the published generating function by the engine gradient, against closed forms')
 RULE = ('one case = one (oracle clause, pair of model functions, nest structure, parameter assignment, availability pattern); '
         'every utility vector x chosen alternative under it is one compared value vector (counted in evaluations). '
         'Non-trivial: at least two alternatives available (for the derivative clause: the differentiated alternative is '
         'available and the structure has a nest with parameter != 1 or an alternative outside every nest). '
-        'distinct = distinct such keys.')
+        'The pair of model functions names the public entry point really called (ENTRIES: 22 names, term-level functions '
+        'through mev and logmev) and the structure records whether the parameters are free parameters moved away from '
+        'their initial values (and with which initial values). distinct = distinct such keys.')
 ASSUMPTIONS = [
     'grids of the per-seed alphabets of C05 (utilities, nest parameters, scale, alpha splits); J <= 3 quick, J <= 4 thorough; '
     'cross-nested structures: 2 nests (J <= 3 quick, J <= 4 thorough) or 3 nests (J = 2 quick, J <= 3 thorough), reduced '
@@ -64,6 +67,17 @@ ASSUMPTIONS = [
     '(its derivative for available alternatives is): such rows are counted and excluded from the G-value clause only',
     'derivatives of G with respect to unavailable alternatives are not compared (ln G_i is only used for available ones)',
     'the engine gradient is trusted to be the derivative of the expression it is given (that is property C02)',
+    'entry points: every public name of biogeme.models defined in models/nested.py and models/cnl.py (a name without a role '
+    'in ENTRIES is counted, not checked); each is crossed with every nest structure (J <= 3 quick, J <= 4 thorough), both '
+    'nest syntaxes, availabilities given / None, scale 1 and one scale != 1; nest parameters: all ones and one rotating '
+    'assignment without ones (quick, and J = 4), the full product of the grid (thorough, J <= 3)',
+    'moved parameters: nest parameters, scale and degrees of membership as free Betas whose initial value differs from the '
+    'value supplied with betas= at evaluation; initial memberships all 0 / all 1 / 1 - alpha, initial nest parameter and '
+    'scale 1 (or value + 0.5); whole memberships as a full alpha matrix with explicit zeros; every nested structure with a '
+    'nest x the same parameter assignments x the three initial-value modes; cross-nested structures: one assignment '
+    '(thorough: two) x initial memberships 0 and one rotating other mode (all three for J = 2 with 2 nests, and thorough)',
+    'old names of the generating function / of the terms and the scaled terms with mu = 1 (GEN_ENTRIES, 5 combinations) '
+    'in the derivative clause: every combination for J <= 3, rotating with the structure for J = 4',
 ]
 ANCHOR_FILES = ['src/biogeme/models/nested.py', 'src/biogeme/models/cnl.py', 'src/biogeme/models/mev.py',
                 'src/biogeme/models/logit.py', 'src/biogeme/nests.py']
@@ -791,7 +805,7 @@ def run_task(task):
             alone, nests = structs[si]
             for mi, mus in enumerate(assignments(alph, len(nests), si, full=(tier != 'quick' and J <= 3))):
                 for ei, entries in enumerate(GEN_ENTRIES[1:]):
-                    if J > 2 and tier == 'quick' and ei != (si + mi) % (len(GEN_ENTRIES) - 1):
+                    if J > 3 and ei != (si + mi) % (len(GEN_ENTRIES) - 1):
                         continue    # J = 2: every combination of names; above: rotating with the structure
                     k = si + mi + ei
                     syntax = 'obj' if k % 2 == 0 else 'tuple'
